@@ -240,7 +240,7 @@ func sweepC08(tier string, emit func(*CaseC08)) {
 			continue
 		}
 		emit(&CaseC08{Boxes: rowBoxes(n, 6, 4), HL: 0, VL: 1})
-		emit(&CaseC08{Boxes: rowBoxes(n, 6, 4), HL: 1, VL: 0})
+		emit(allProcs(&CaseC08{Boxes: rowBoxes(n, 6, 4), HL: 1, VL: 0}))
 	}
 	maxL := int64(2)
 	for h := int64(0); h <= 2; h++ {
